@@ -223,7 +223,6 @@ func PathAt(f *ast.File, idx int) string {
 	return "?"
 }
 
-
 // PathClass removes indices from a path: Decls[2].Body.List[0].X.Op -> Decls.Body.List.X.Op,
 // keeping only the last two components (node field that changed).
 func PathClass(p string) string {
